@@ -554,14 +554,14 @@ func (e *Engine) checkAssert(st *State, c *Term, label string) {
 			return
 		}
 	} else if e.assertSeen[c.ID] {
-		e.res.AssertQueries++
+		e.res.ValidityQueries++
 		r, _ := e.solver.Check(st.Assumed, Not(c), e.cfg.AssertTimeout, false)
 		if r == Unknown && e.cfg.EscalateSec > 0 {
 			r, _, _ = e.solver.Escalate(st.Assumed, Not(c), e.cfg.EscalateSec, false, nil)
 		}
 		e.validCache[key] = r == Unsat
 		if r == Unsat {
-			e.res.AssertsProved++
+			e.res.AssertsByGlobal++
 			st.Assume(c)
 			st.addLemma(c)
 			st.Assumed = append(st.Assumed, c)
@@ -594,6 +594,7 @@ func (e *Engine) checkAssert(st *State, c *Term, label string) {
 			st.Assumed = append(st.Assumed, c)
 		}
 	case Sat:
+		e.res.AssertsRefuted++
 		viol := Violation{Kind: "assert", Label: label, Model: m, Case: e.cfg.Case}
 		e.res.addViolation(viol)
 		// continue the path under the assumption that the assertion held
